@@ -52,6 +52,10 @@ pub struct WorldCfg {
     /// Whether the TA signer is embedded (fully embedded TA).
     pub ta_signer_embedded: bool,
     pub log_level: String,
+    /// Host name of this instance's service, RRDP and rsync URIs.
+    pub host: String,
+    /// History generators may move CAs to a second publication server.
+    pub allow_remote: bool,
 }
 
 impl WorldCfg {
@@ -64,6 +68,8 @@ impl WorldCfg {
             extra_toml: String::new(),
             ta_signer_embedded: true,
             log_level: std::env::var("KVH_LOG").unwrap_or("off".into()),
+            host: HOST.to_string(),
+            allow_remote: false,
         }
     }
 
@@ -81,7 +87,7 @@ pid_file = "{dir}/krill.pid"
 log_type = "stderr"
 log_level = "{}"
 admin_token = "secret"
-service_uri = "https://{HOST}/"
+service_uri = "https://{host}/"
 ta_support_enabled = true
 ta_signer_enabled = {}
 roa_aggregate_threshold = {}
@@ -91,7 +97,8 @@ rrdp_delta_interval_min_seconds = {}
 "#,
             self.log_level, self.ta_signer_embedded,
             self.aggregate.0, self.aggregate.1, self.rrdp_interval,
-            self.extra_toml
+            self.extra_toml,
+            host = self.host,
         )
     }
 
@@ -196,6 +203,9 @@ pub struct World {
     /// CAs the exactness oracle leaves out (e.g. a CA whose publisher the
     /// history removed on purpose).
     pub oracle_skip: std::collections::BTreeSet<String>,
+    /// A second krill instance (publication server only) reached through
+    /// the in-process transport: "somebody else's repository".
+    pub remote: Option<Box<World>>,
     _tokio: tokio::runtime::Runtime,
 }
 
@@ -225,6 +235,7 @@ impl World {
             prefer: None,
             no_directed: false,
             oracle_skip: Default::default(),
+            remote: None,
             _tokio: tokio,
         }
     }
@@ -243,10 +254,10 @@ impl World {
         let w = Self::build(cfg, tweak);
         let uris = api::admin::PublicationServerUris {
             rrdp_base_uri: uri::Https::from_string(
-                format!("https://{HOST}/rrdp/")
+                format!("https://{}/rrdp/", w.cfg.host)
             ).unwrap(),
             rsync_jail: uri::Rsync::from_string(
-                format!("rsync://{HOST}/repo/")
+                format!("rsync://{}/repo/", w.cfg.host)
             ).unwrap(),
         };
         w.krill.repo_manager().init(uris, &w.krill).expect("repo init");
@@ -288,11 +299,35 @@ impl World {
     }
 
     /// Drops this world and opens the same directory again (disk only).
-    pub fn restart(self) -> World {
+    pub fn restart(mut self) -> World {
         let cfg = self.cfg.clone();
         assert!(cfg.memory.is_none(), "restart needs disk storage");
+        // the other party's server is not restarted with this one
+        let remote = self.remote.take();
         drop(self);
-        World::open(cfg)
+        let mut w = World::open(cfg);
+        w.remote = remote;
+        w
+    }
+
+    /// The second publication server, started at first use.
+    pub fn ensure_remote(&mut self) -> &World {
+        if self.remote.is_none() {
+            let mut cfg = WorldCfg::new(self.cfg.dir.join("remote2"));
+            cfg.host = crate::remote::HOST2.to_string();
+            cfg.ta_signer_embedded = false;
+            cfg.memory = self.cfg.memory.map(|s| s ^ 0x2222);
+            cfg.rrdp_interval = self.cfg.rrdp_interval;
+            // a world of its own must not reset the shared queue clock
+            let offset = krill::verif::queue_clock_offset_ms();
+            let r = World::create(cfg);
+            krill::verif::set_queue_clock_offset_ms(offset);
+            crate::remote::register(
+                &format!("https://{}/", crate::remote::HOST2),
+                r.krill.clone(), r.actor.clone());
+            self.remote = Some(Box::new(r));
+        }
+        self.remote.as_ref().unwrap()
     }
 
     pub fn data_dir(&self) -> PathBuf { self.cfg.dir.join("data") }
@@ -711,8 +746,19 @@ impl World {
 
     //--- Repository views
 
-    /// All files of all publishers as the server holds them (incl. staged).
+    /// All files of all publishers as the server(s) hold them (incl.
+    /// staged): the embedded server's and, when a history moved a CA to the
+    /// second publication server, that one's.
     pub fn publisher_files(&self) -> BTreeMap<String, Bytes> {
+        let mut files = self.publisher_files_local();
+        if let Some(r) = &self.remote {
+            files.extend(r.publisher_files_local());
+        }
+        files
+    }
+
+    /// The embedded publication server's files only.
+    pub fn publisher_files_local(&self) -> BTreeMap<String, Bytes> {
         let mut files = BTreeMap::new();
         let k = &self.krill;
         for p in k.repo_manager().publishers().unwrap_or_default() {
